@@ -13,6 +13,15 @@ pub fn to_jer_identifier(identifier: &str) -> String {
     identifier.replace('-', "_")
 }
 
+/// Renders a type reference. An external reference `Module.Type` is not
+/// covered by an import alias, so it stays qualified by the namespace.
+pub fn to_jer_qualified_identifier(module: Option<&str>, identifier: &str) -> String {
+    match module {
+        Some(m) => format!("{}.{}", to_jer_identifier(m), to_jer_identifier(identifier)),
+        None => to_jer_identifier(identifier),
+    }
+}
+
 pub fn type_to_tokens(ty: &ASN1Type) -> String {
     match ty {
         ASN1Type::Null => String::from("null"),
@@ -39,7 +48,9 @@ pub fn type_to_tokens(ty: &ASN1Type) -> String {
         ASN1Type::SetOf(s) | ASN1Type::SequenceOf(s) => {
             element_type_to_tokens(&s.element_type) + "[]"
         }
-        ASN1Type::ElsewhereDeclaredType(e) => to_jer_identifier(&e.identifier),
+        ASN1Type::ElsewhereDeclaredType(e) => {
+            to_jer_qualified_identifier(e.module.as_deref(), &e.identifier)
+        }
         _ => String::from("any"),
     }
 }
